@@ -33,7 +33,34 @@ def pparse : Handler := fun j => do
     let m := String.ofList (labels.map (fun l => if p.matches l then '1' else '0'))
     pure (Json.mkObj [("ok", Json.bool true), ("pat", jPattern p), ("str", jBytes p.toBytes), ("m", Json.str m)])
 
+def uniLabels (j : Json) : Except String (List Grog.Label) := do
+  let u ← j.getObjVal? "uni"
+  let pkgs ← getBytesList u "pkgs"
+  let names ← getBytesList u "names"
+  pure (pkgs.flatMap (fun p => names.map (fun n => Grog.Label.mk p n)))
+
+/-- {"op":"patterns.parse","cur":..,"ss":[..],"uni":..} → {"ok":bool,"pats":[..],"str":..,"m":".."} -/
+def psparse : Handler := fun j => do
+  let cur ← getBytes j "cur"
+  let ss ← getBytesList j "ss"
+  let labels ← uniLabels j
+  match parsePatterns cur ss with
+  | none => pure (Json.mkObj [("ok", Json.bool false)])
+  | some ps =>
+    let m := String.ofList (labels.map (fun l => if matchesAny ps l then '1' else '0'))
+    pure (Json.mkObj [("ok", Json.bool true), ("pats", Json.arr (ps.map jPattern).toArray),
+      ("str", jBytes (patternSetToBytes ps)), ("m", Json.str m)])
+
+/-- {"op":"pattern.fromlabel","pkg":..,"name":..,"uni":..} -/
+def fromLabel : Handler := fun j => do
+  let pkg ← getBytes j "pkg"
+  let name ← getBytes j "name"
+  let labels ← uniLabels j
+  let p := patternFromLabel ⟨pkg, name⟩
+  let m := String.ofList (labels.map (fun l => if p.matches l then '1' else '0'))
+  pure (Json.mkObj [("pat", jPattern p), ("str", jBytes p.toBytes), ("m", Json.str m)])
+
 def handlers : List (String × Handler) :=
-  [("label.parse", parse), ("pattern.parse", pparse)]
+  [("label.parse", parse), ("pattern.parse", pparse), ("patterns.parse", psparse), ("pattern.fromlabel", fromLabel)]
 
 end Grog.Drv.Label
